@@ -17,8 +17,11 @@ entry points `Receive(timeout)`, `Receive()` (driver: readable), `Send(timeout)`
 The code modelled is /repo as it is NOW, including the repairs
   319faf2 (Receive(timeout) resets a stale WANT_READ once the handshake is finished),
   e3dfab5 (successful partial writes do not count as handshake rounds),
-  ee81033 (Send(timeout) resets a stale WANT_WRITE once the handshake is finished);
-each is a flag of `Cfg`, the pre-fix behaviour is `Cfg.legacy…` (Props/C18.lean proves
+  ee81033 (Send(timeout) resets a stale WANT_WRITE once the handshake is finished),
+  b68eb89 (no session tickets: engine configuration, invisible to the glue),
+  d6dcd55 (a socket failure inside a BIO callback is stashed in `pendingError`, the callback returns -1,
+           `HandleResult` makes the failure sticky and rethrows it - no C++ exception crosses libssl);
+the first three are flags of `Cfg`, the pre-fix behaviour is `Cfg.legacy…` (Props/C18.lean proves
 that each pre-fix variant violates the property on a concrete history).
 -/
 namespace SockModel.Tls
@@ -51,8 +54,8 @@ def SslAns.isDone : SslAns → Bool
 before it answers.  `out` of `ret` is the plaintext an `SSL_read` hands to the caller. -/
 inductive EngProg (σ : Type) where
   | ret (ans : SslAns) (out : Bytes) (s : σ)
-  | bioRead (n : Nat) (k : Bytes → EngProg σ)      -- `[]` = the callback returned 0 (retry-read set)
-  | bioWrite (bs : Bytes) (k : Nat → EngProg σ)    -- the callback's return value
+  | bioRead (n : Nat) (k : Option Bytes → EngProg σ)    -- `some []` = returned 0 (retry-read set); `none` = returned -1
+  | bioWrite (bs : Bytes) (k : Option Nat → EngProg σ)  -- the callback's return value; `none` = -1 (socket failure)
 
 structure Engine (σ : Type) where
   sslRead : σ → Nat → EngProg σ
@@ -62,8 +65,8 @@ structure Engine (σ : Type) where
 /-- every way the program can end satisfies `P` -/
 inductive AllLeaves {σ : Type} (P : SslAns → Bytes → σ → Prop) : EngProg σ → Prop where
   | ret {a o s} : P a o s → AllLeaves P (.ret a o s)
-  | bioRead {n k} : (∀ bs, AllLeaves P (k bs)) → AllLeaves P (.bioRead n k)
-  | bioWrite {bs k} : (∀ n, AllLeaves P (k n)) → AllLeaves P (.bioWrite bs k)
+  | bioRead {n k} : (∀ r, AllLeaves P (k r)) → AllLeaves P (.bioRead n k)
+  | bioWrite {bs k} : (∀ r, AllLeaves P (k r)) → AllLeaves P (.bioWrite bs k)
 
 structure Cfg where
   stepsMax : Nat := 10
@@ -105,6 +108,8 @@ structure Glue where
   isReadable : Bool := false
   isWritable : Bool := false
   driverSendSuppressed : Bool := false
+  /-- a socket failure raised inside a BIO callback, to be rethrown once the engine has returned -/
+  pendingError : Option Exn := none
   -- ghost state (never read by the model's control flow)
   wire : Bytes := []               -- every byte the raw `send` accepted, in order
   bioWrites : List BioW := []      -- newest first
@@ -162,9 +167,12 @@ def handleLastError (W : World ω) (s : St σ ω) : Out Bool × St σ ω :=
   | (.ok true, s') => (.ok true, setLastError s' .none)
   | r => r
 
-/-- `HandleResult(res)`: `lastError = SSL_get_error(...)`, then `HandleLastError()` -/
+/-- `HandleResult(res)`: `lastError = SSL_get_error(...)`; a failure stashed by a BIO callback makes the
+session unusable (`lastError = SSL_ERROR_SYSCALL`, sticky) and is rethrown; else `HandleLastError()` -/
 def handleResult (W : World ω) (s : St σ ω) (ans : SslAns) : Out Bool × St σ ω :=
-  handleLastError W (setLastError s ans.toErr)
+  match s.g.pendingError with
+  | some e => (.exn e, { s with g := { s.g with lastError := .syscall, pendingError := none } })
+  | none => handleLastError W (setLastError s ans.toErr)
 
 /-- `BioRead(data, size)`: what the read BIO hands to the engine (`[]` = 0 bytes, retry) -/
 def bioRead (W : World ω) (s : St σ ω) (n : Nat) : Out Bytes × St σ ω :=
@@ -205,19 +213,21 @@ def bioWrite (W : World ω) (s : St σ ω) (bs : Bytes) : Out Nat × St σ ω :=
     let (r, tick) := sendSome W s.w bs deadline now
     noteWrite s bs r (if r.sent = bs.length then remainingMs deadline tick else 0)
 
-/-- run one engine call: the glue answers the engine's BIO calls.  An exception thrown by a
-callback unwinds through the engine (its state is left where it was). -/
+def stash (s : St σ ω) (e : Exn) : St σ ω := { s with g := { s.g with pendingError := some e } }
+
+/-- run one engine call: the glue answers the engine's BIO calls.  A socket failure inside a callback does
+not unwind through the engine: it is stashed, the callback returns -1 and the engine goes on (d6dcd55). -/
 def interp (W : World ω) (s : St σ ω) : EngProg σ → Out (SslAns × Bytes) × St σ ω
   | .ret ans out e' => (.ok (ans, out), { s with e := e' })
   | .bioRead n k =>
     match bioRead W s n with
-    | (.ok bs, s') => interp W s' (k bs)
-    | (.exn e, s') => (.exn e, s')
+    | (.ok bs, s') => interp W s' (k (some bs))
+    | (.exn e, s') => interp W (stash s' e) (k none)
     | (.abort m, s') => (.abort m, s')
   | .bioWrite bs k =>
     match bioWrite W s bs with
-    | (.ok n, s') => interp W s' (k n)
-    | (.exn e, s') => (.exn e, s')
+    | (.ok n, s') => interp W s' (k (some n))
+    | (.exn e, s') => interp W (stash s' e) (k none)
     | (.abort m, s') => (.abort m, s')
 
 def noteCall (E : Engine σ) (s : St σ ω) (isRead : Bool) (arg : Bytes) (ans : SslAns) : St σ ω :=
